@@ -2,9 +2,16 @@
   calendar-query driver (JSON lines): component trees and filters in, the members the model
   selects out — once with the code's text comparison (equality) and once with the RFC's
   (substring), plus whether the "cannot raise" side conditions of `check_decides` hold.
+
+  op "idx": one calendar and a filter list in; the model's `index_keys()`, `get_indexes(keys)`,
+  `check_from_indexes` and `check` out (C10, index path against naive path).  `"rt"` selects the
+  round-trip function of the model: `"id"` (default; what the harness passes), `"text"`
+  (`rtText`: escape then unescape), `"73"` (the pre-repair behaviour).
+  ops "esc" / "unesc": the models of `_escape_char` and `_unescape_text` (`Ical/Escape.lean`).
 -/
 import Lean.Data.Json
 import Xandikos.Ical.Filter
+import Xandikos.Ical.Index
 
 namespace Xandikos.IcalDriver
 open Lean Xandikos.Ical Xandikos.Py
@@ -91,6 +98,74 @@ def filterOk (f : CalF) (c : Cal) : Bool :=
   f.comps.all fun mf => c.subs.all fun m => levelOk mf m.name m.props &&
     mf.comps.all fun lf => m.subs.all fun l => levelOk lf l.name l.props
 
+
+/-! ### op "idx": the index path -/
+
+/-- the `to_ical` → `from_ical` round trip of icalendar 7.3 as `TextMatcher.match_indexes` used it
+    BEFORE the repair (`_from_index`): texts come back escaped, a category list is re-split at
+    every comma.  Kept for replaying the old behaviour; the harness passes `"rt":"id"`. -/
+def rt73 : PVal → PVal
+  | .text s => .text (escapeText s)
+  | .cats l => .cats (Str.splitOn ',' (Str.joinWith ',' (l.map escapeText)))
+  | v => v
+
+def showPVal : PVal → Json
+  | .text s => Json.mkObj [("text", Json.str (String.ofList s))]
+  | .cats l => Json.mkObj [("cats", Json.arr (l.map fun c => Json.str (String.ofList c)).toArray)]
+  | .time t => Json.mkObj [("time", Json.mkObj [("dt", Json.bool t.isDateTime), ("key", Json.num (JsonNumber.fromInt t.key))])]
+  | .dur d => Json.mkObj [("dur", Json.num (JsonNumber.fromInt d))]
+  | .period a b => Json.mkObj [("period", Json.arr #[Json.num (JsonNumber.fromInt a), Json.num (JsonNumber.fromInt b)])]
+  | .other => Json.mkObj [("other", Json.bool true)]
+
+def showIVal : IVal → Json
+  | .present => Json.str "T"
+  | .val v => Json.str (showPVal v).compress
+  | .param s => Json.str (Json.mkObj [("param", Json.str (String.ofList s))]).compress
+
+def showRes (r : Except PyErr Bool) : Json :=
+  match r with
+  | .ok b => Json.bool b
+  | .error (.raised cls _) => Json.mkObj [("error", Json.str cls)]
+
+def idxOp (j : Json) : Json :=
+  let c := parseCal (j.getObjValD "cal")
+  let filters := (arr j "filters").map parseCalF
+  let rt : PVal → PVal :=
+    if str j "rt" == "73" then rt73 else if str j "rt" == "text" then rtText else id
+  let tz : TVal → Int := fun t => t.key
+  let ks := indexKeys filters
+  let keysJ : Json := match ks with
+    | .ok l => Json.arr (l.map fun g => Json.arr (g.map Json.str).toArray).toArray
+    | .error (.raised cls _) => Json.mkObj [("error", Json.str cls)]
+  let keys : List String := match j.getObjVal? "keys" with
+    | .ok (.arr a) => a.toList.map fun x => x.getStr?.toOption.getD ""
+    | _ => (match ks with
+            | .ok l => l.flatten
+            | .error _ => [])
+  let vals := getIndexesE rt c keys
+  let valsJ : Json := match vals with
+    | .ok l => Json.mkObj (l.map fun e => (e.1, Json.arr (e.2.map showIVal).toArray))
+    | .error (.raised cls _) => Json.mkObj [("error", Json.str cls)]
+  let idxJ : Json := match vals with
+    | .ok l => showRes (checkFromIndexes tz filters l)
+    | .error (.raised cls _) => Json.mkObj [("error", Json.str cls)]
+  Json.mkObj [("keys", keysJ), ("values", valsJ), ("idx", idxJ),
+              ("total", showRes (checkFromIndexes tz filters (getIndexes rt c keys))),
+              ("naive", showRes (check false tz filters c))]
+
+def strs (l : List (List Char)) : Json := Json.arr (l.map fun p => Json.str (String.ofList p)).toArray
+
+/-- `{"op":"esc","text":s}`: the model's escape of `s`, and the model's unescape of that, without
+    and with splitting -/
+def escOp (j : Json) : Json :=
+  let e := escapeText (chars j "text")
+  Json.mkObj [("escaped", Json.str (String.ofList e)), ("unescaped", strs (unescapeText false e)),
+              ("split", strs (unescapeText true e))]
+
+/-- `{"op":"unesc","text":s,"split":b}`: the model's `_unescape_text(s, split=b)` -/
+def unescOp (j : Json) : Json :=
+  Json.mkObj [("parts", strs (unescapeText (bool j "split") (chars j "text")))]
+
 structure IState where
   members : List (String × Cal) := []
 
@@ -119,6 +194,9 @@ def step (st : IState) (line : String) : IState × String :=
       (st, (Json.mkObj [("code", showSel (select false filters st.members)),
                         ("rfc", showSel (select true filters st.members)),
                         ("sidecond", Json.bool ok)]).compress)
+    | "idx" => (st, (idxOp j).compress)
+    | "esc" => (st, (escOp j).compress)
+    | "unesc" => (st, (unescOp j).compress)
     | _ => (st, "{\"bad\":\"op\"}")
 
 end Xandikos.IcalDriver
